@@ -144,6 +144,37 @@ Theorem C11_source_predicates : forall s o x,
 Proof. exact source_predicates. Qed.
 Print Assumptions C11_source_predicates.
 
+(* the set algebra as written in the source: union / intersection / difference (their one-operand fast paths
+   and the iter_* generators), symmetric_difference, other - s, update and the three *_update methods *)
+Theorem C11_source_union : forall s os, src_union s os = m_union s os.
+Proof. exact source_union. Qed.
+Print Assumptions C11_source_union.
+Theorem C11_source_intersection : forall s os, src_intersection s os = m_intersection s os.
+Proof. exact source_intersection. Qed.
+Print Assumptions C11_source_intersection.
+Theorem C11_source_difference : forall s os, src_difference s os = m_difference s os.
+Proof. exact source_difference. Qed.
+Print Assumptions C11_source_difference.
+Theorem C11_source_symmetric_difference : forall s o, src_symmetric_difference s [o] = m_symmetric_difference s o.
+Proof. exact source_symmetric_difference. Qed.
+Print Assumptions C11_source_symmetric_difference.
+Theorem C11_source_rsub : forall s o, src_rsub s o = sort_nat (filter (fun x => negb (m_contains s x)) (o_elems o)).
+Proof. exact source_rsub. Qed.
+Print Assumptions C11_source_rsub.
+Theorem C11_source_update : forall s os, src_update s os = m_update s os.
+Proof. exact source_update. Qed.
+Print Assumptions C11_source_update.
+Theorem C11_source_intersection_update : forall s os, Inv s -> src_intersection_update s os = m_intersection_update gen_cfg s os.
+Proof. exact source_intersection_update. Qed.
+Print Assumptions C11_source_intersection_update.
+Theorem C11_source_difference_update : forall s os, Inv s -> src_difference_update s os = m_difference_update gen_cfg s os.
+Proof. exact source_difference_update. Qed.
+Print Assumptions C11_source_difference_update.
+Theorem C11_source_symmetric_difference_update : forall s o, Inv s ->
+  src_symmetric_difference_update s o = m_symmetric_difference_update gen_cfg s o.
+Proof. exact source_symmetric_difference_update. Qed.
+Print Assumptions C11_source_symmetric_difference_update.
+
 (* s[a:b:k], k > 0: iter_slice + islice = the list slice of CPython *)
 Theorem C11_slice : forall s a b k, Inv s -> valid_op (m_live s) (Slice a b k) = true ->
   m_slice s a b k = snd (spec_step (m_live s) (Slice a b k)).
